@@ -3,6 +3,7 @@ import json
 import os
 
 from . import common
+from .common import clist, cnat, ctext, copt
 from . import expect_hist as H
 
 TRUSTED = [
@@ -125,6 +126,8 @@ def run_property(ctx, which, props_file):
         expect_hist(ctx, which, 60000 if thorough else 5000, 6 if thorough else 4, (400000 if thorough else 40000))
     else:
         ctx.corr_broken.append(('expect-hist', {'error': 'model did not build'}))
+    if which == 'C01' and have_model:
+        wrappers_job(ctx, 12000 if thorough else 2000)
     if which in ('C01', 'C04'):
         wrapper_oracle(ctx, which, 30000 if thorough else 4000)
     if which == 'C01':
@@ -148,6 +151,61 @@ def replay(ctx, path, which):
         print('  observed:', {k: o[k] for k in ('res', 'pend', 'buf', 'left') if k in o})
     print('verdict:', v)
     return 1 if v else 0
+
+
+def wrappers_job(ctx, n):
+    """correspondence for Expect/Wrappers.v: the REAL read / readline / iteration on a scripted transport (with a search
+    window on the spawn object, TIMEOUTs and transport errors in the script) against the model, after every call"""
+    pexpect = common.preflight()
+    rng = ctx.rng
+    cases = []
+    for _ in range(n):
+        uni = rng.random() < 0.3
+        wd = rng.choice([None, None, 1, 2, 3, 5])
+        stream = ''.join(rng.choice('ab\r\n') if rng.random() < 0.65 else '\r\n' for _ in range(rng.randint(0, 16)))
+        script, i = [], 0
+        while i < len(stream):
+            k = rng.choice([1, 1, 2, 3, 5])
+            script.append(stream[i:i + k])
+            i += k
+            if rng.random() < 0.12:
+                script.append(rng.choice(['T', 'T', 'X']))
+        if rng.random() < 0.5:
+            script.append('E')
+        ops = [rng.choice([('readline',), ('readline',), ('readall',), ('readn', rng.randint(0, 4)), ('readlines',)]) for _ in range(rng.randint(1, 5))]
+        sp, enc = H.make_spawn(pexpect, uni, script)
+        sp.searchwindowsize = wd
+        obs = []
+        for op in ops:
+            try:
+                if op[0] == 'readline':
+                    r = [0, sp.readline()]
+                elif op[0] == 'readall':
+                    r = [0, sp.read()]
+                elif op[0] == 'readn':
+                    r = [0, sp.read(op[1])]
+                else:
+                    lines, fin = [], 0
+                    try:
+                        for l in sp:
+                            lines.append(l)
+                    except pexpect.TIMEOUT:
+                        fin = 2
+                    except OSError:
+                        fin = 3
+                    r = [2, lines, fin]
+            except pexpect.TIMEOUT:
+                r = [1, 2]
+            except OSError:
+                r = [1, 3]
+            except pexpect.EOF:
+                r = [1, 1]
+            obs.append([r, sp._before.getvalue(), sp._buffer.getvalue(), len(sp.script)])
+        cops = clist(['WReadline' if o[0] == 'readline' else 'WReadAll' if o[0] == 'readall' else 'WReadlines' if o[0] == 'readlines' else '(WReadN %s)' % cnat(o[1]) for o in ops])
+        evs = clist(['Timeout' if e == 'T' else 'Eof' if e == 'E' else 'Err' if e == 'X' else '(Data %s)' % ctext(enc(e)) for e in script])
+        cases.append(('(%s, %s, %s, {| pend := []; buf := [] |})' % (copt(wd, cnat), cops, evs), obs, {'script': script, 'ops': [list(o) for o in ops], 'W': wd, 'unicode': uni}))
+    ctx.run_cases('wrappers', ['Base.PySeq', 'Base.Rx', 'Expect.Model', 'Expect.Wrappers', 'Expect.Run'], 'run_wrappers',
+                  'option nat * list wop * list ev * st', cases, shard=250)
 
 
 def wrapper_oracle(ctx, which, n):
